@@ -87,7 +87,15 @@ TPkt == /\ l <= Len(TraceLog) /\ Line.ev = "pkt"
               /\ last' = NoLast
         /\ l' = l + 1 /\ UNCHANGED cfg
 
-TNext == TReset \/ TPkt
+\* isolation observation of a multi-tunnel run: after a payload moved on this tunnel, own = exactly this tunnel's
+\* bytes arrived at this tunnel's peer, foreign = some other tunnel's peer received bytes as well
+TIso == /\ l <= Len(TraceLog) /\ Line.ev = "iso"
+        /\ viol' = viol \cup (IF ~Line.own THEN {<<l, "G_C07_OwnDataArrives", phase, Line.dir, "valid">>} ELSE {})
+                        \cup (IF Line.foreign THEN {<<l, "G_C07_NothingLeaksToOthers", phase, Line.dir, "valid">>} ELSE {})
+        /\ cover' = cover \cup {<<"iso", phase, Line.dir>>}
+        /\ l' = l + 1 /\ UNCHANGED <<cfg, phase, nd, oks, tokOk, last>>
+
+TNext == TReset \/ TPkt \/ TIso
 TSpec == TInit /\ [][TNext]_tvars
 
 \* printed exactly once, when the whole log has been consumed
